@@ -471,6 +471,23 @@ func (e *Exec) Settle(stableFor, maxWait time.Duration) {
 	}
 }
 
+// waitQuiet waits until nothing has succeeded for the given window (restarted when this loop was starved)
+func (e *Exec) waitQuiet(quiet, maxWait time.Duration) bool {
+	start := time.Now()
+	lastIter := time.Now()
+	for e.W.SinceLastChange() <= quiet {
+		if time.Since(lastIter) > quiet/2 {
+			e.W.InjectedFault()
+		}
+		lastIter = time.Now()
+		if time.Since(start) > maxWait {
+			return false
+		}
+		time.Sleep(2 * time.Millisecond)
+	}
+	return true
+}
+
 // idleFixedPoint waits until the system has been quiet for the given window (no successful write, device request,
 // environment action or injected fault; the window restarts when this loop itself was starved), then re-examines
 // every object with fresh reconcilers and compares the records before and after
@@ -492,11 +509,16 @@ func (e *Exec) idleFixedPoint(quiet, maxWait time.Duration) {
 		}
 		time.Sleep(2 * time.Millisecond)
 	}
+	pending := e.retryPossiblyPending(quiet)
 	before := StateString(e.Snapshot())
 	reqs := e.devReqs()
 	e.ReconcileEverything()
 	after := StateString(e.Snapshot())
 	e.C.Count("idle_fixed_point_passes_with_a_target_offline", 1)
+	if (before != after || e.devReqs() != reqs) && pending {
+		e.C.Count("fixed_point_passes_not_judged_retry_possibly_pending", 1)
+		return
+	}
 	if before != after || e.devReqs() != reqs {
 		e.IdleFinding = fmt.Sprintf("with a target offline the controllers had been idle for %s, yet re-examining the objects changed the state:\n before %s\n after  %s", quiet, before, after)
 	}
